@@ -23,7 +23,7 @@ def prep(bid):
         return True
     os.makedirs(d, exist_ok=True)
     subprocess.run("git -C /repo archive HEAD xandikos | tar -x -C %s" % d, shell=True, check=True)
-    r = subprocess.run(["git", "apply", "--whitespace=nowarn", "/verif/benign/%s/patch.diff" % bid], cwd=d, capture_output=True, text=True)
+    r = subprocess.run(["git", "apply", "--whitespace=nowarn", "--include=xandikos/*", "/verif/benign/%s/patch.diff" % bid], cwd=d, capture_output=True, text=True)
     if r.returncode != 0:
         print("patch of %s does not apply: %s" % (bid, r.stderr[:200]))
     return r.returncode == 0
